@@ -6,7 +6,7 @@ From Knut Require Import Model.Str Model.Dec Model.Date Model.Account Model.Ledg
      Model.Table Model.ImpCommonA Model.ImpCommonB Model.Imp.Revolut2 Model.Imp.Revolut Model.Imp.Wise Model.Imp.Swissquote
      Model.Imp.Interactivebrokers Model.Imp.Viac
      Spec.ImpSpecA Spec.ImpSpecB Spec.ImpSpecIB
-     Proofs.ImpProofsA Proofs.ImpProofsB Proofs.ImpProofsIB.
+     Proofs.PairProofs Proofs.ImpProofsA Proofs.ImpProofsB Proofs.ImpProofsIB.
 Import ListNotations.
 Open Scope bool_scope.
 
@@ -312,3 +312,35 @@ Proof.
   intros Hf Hfr Hwf. unfold run_viac. rewrite Hfr. destruct flag as [|c flag]; [discriminate Hf|]. cbn [is_empty]. rewrite Hf. cbn [negb].
   rewrite (viac_faithful (c :: flag) fr l Hwf). reflexivity.
 Qed.
+
+(* ---------------------------------------------------------------- shared back half for group B *)
+(* a transaction that consists of bookings is a sequence of posting pairs; so is, day by day, the
+   journal handed to the printer *)
+Lemma legs_paired ls : paired (concat (map booking_postings ls)).
+Proof.
+  induction ls as [|l ls IH]; [constructor|]. cbn [map concat]. apply paired_app; [apply pair_build_paired|exact IH].
+Qed.
+
+Lemma books_b_paired acct f ls tg t : books_b acct f ls tg t -> txn_ok t.
+Proof. intros (_ & Hc & _). unfold txn_ok. rewrite Hc. apply legs_paired. Qed.
+
+Definition booked_directive (d : directive) : Prop :=
+  match d with DTxn t => exists acct f ls tg, books_b acct f ls tg t | _ => True end.
+
+Theorem booked_days_ok ds : Forall booked_directive ds -> Forall day_ok (b_days (builder_of ds)).
+Proof.
+  intros H. apply builder_of_ok. induction H as [|d ds Hd _ IH]; constructor; [|exact IH].
+  destruct d; cbn [directive_ok]; try exact I. destruct Hd as (acct & f & ls & tg & Hb). eapply books_b_paired; exact Hb.
+Qed.
+
+Lemma ibs_emitted_booked acct items ds : Forall2 (ibs_emitted acct) items ds -> Forall booked_directive ds.
+Proof.
+  induction 1 as [|i d items ds Hd _ IH]; constructor; [|exact IH].
+  destruct i as [e|b]; cbn [ibs_emitted] in Hd.
+  - destruct Hd as (t & -> & Hb & _). cbn [booked_directive]. eauto.
+  - subst d. exact I.
+Qed.
+
+Theorem interactivebrokers_days_ok acct items ds :
+  Forall2 (ibs_emitted acct) items ds -> Forall day_ok (b_days (builder_of ds)).
+Proof. intros H. apply booked_days_ok. eapply ibs_emitted_booked; exact H. Qed.
